@@ -6,11 +6,11 @@ search : optional directed search run when an obligation broke and no slice prod
 CORE = ["Base", "Strings", "Num", "Builtins", "Interp", "Machine", "Spec"]
 REFINE = CORE + ["HeapFacts", "Refine1", "Refine2", "Refine3", "Refine4"]
 PROPS = {
- "C02": dict(needs=REFINE + ["FuelMono", "LinkStack", "Scope"], gen=["GenStack"], slices=[("slices_core", "core_programs"), ("slices_core", "small_core"), ("slices_core", "spec_vs_machine")]),
+ "C02": dict(needs=REFINE + ["FuelMono", "LinkStack", "Scope"], gen=["GenStack"], slices=[("slices_core", "core_programs"), ("slices_core", "small_core"), ("slices_values", "c02_callables"), ("slices_core", "spec_vs_machine")]),
  "C03": dict(needs=REFINE + ["RelA", "RelB", "RelC", "RunG", "ShortCircuit"], gen=[], slices=[("slices_lazy", "c03_bombs"), ("slices_core", "core_programs")]),
  "C05": dict(needs=REFINE + ["LinkStack", "Progress"], gen=["GenStack"], slices=[("slices_faults", "c05_ladders"), ("slices_core", "core_programs")]),
- "C07": dict(needs=REFINE + ["RunG", "Pure", "IOSpec"], gen=[], slices=[("slices_core", "io_trees")]),
- "C10": dict(needs=REFINE + ["RunG", "Exc", "Deep", "LinkErr"], gen=["GenErr"], slices=[("slices_lazy", "c10_faults"), ("slices_core", "core_programs")]),
+ "C07": dict(needs=REFINE + ["RunG", "Pure", "Eq", "Deep", "IOSpec", "MonadLaws"], gen=[], slices=[("slices_core", "io_trees")]),
+ "C10": dict(needs=REFINE + ["RunG", "Exc", "Deep", "LinkErr"], gen=["GenErr"], slices=[("slices_lazy", "c10_faults"), ("slices_lazy", "c10_import_faults"), ("slices_core", "core_programs")]),
  "C11": dict(needs=CORE + ["Float", "Arith", "LinkArith"], gen=["GenArith"], slices=[("slices_core", "int_kernels"), ("slices_values", "c11_tower")]),
  "C19": dict(needs=CORE + ["Events"], gen=[], slices=[("slices_core", "c19_dyck"), ("slices_core", "core_programs"), ("slices_core", "io_trees")]),
  "C01": dict(needs=["Base", "Num", "Lex", "Jamo", "SpecC01", "Skeleton"], gen=["GenParse", "GenTS"], slices=[("slices_text", "c01_exhaustive"), ("slices_text", "c01_model_points"), ("slices_text", "c01_respell")]),
